@@ -5,8 +5,8 @@ package props
 import (
 	"fmt"
 	"hash/fnv"
-	"strings"
 	"runtime"
+	"strings"
 	"sync"
 	"sync/atomic"
 	"testing"
